@@ -2,6 +2,9 @@ package props
 
 import (
 	"fmt"
+	"os"
+
+	"gitlab.com/gomidi/midi/v2/smf"
 
 	"verif/harness/gen"
 	"verif/harness/mon"
@@ -21,7 +24,7 @@ func init() {
 			"known fixed-length meta events are generated with their spec length (tempo 3 bytes non-zero, etc.)",
 			"header length is 6 (statement)",
 		},
-		Require: []string{"files", "feat:running_status", "feat:padded_vlq", "feat:f0_without_f7", "feat:f7_packet", "feat:unknown_meta", "feat:long_payload", "feat:alien_before", "feat:alien_between", "feat:alien_after", "feat:smpte", "decoder_crosschecks", "events_compared", "messages_classified"},
+		Require: []string{"files", "feat:running_status", "feat:padded_vlq", "feat:f0_without_f7", "feat:f7_packet", "feat:unknown_meta", "feat:long_payload", "feat:alien_before", "feat:alien_between", "feat:alien_after", "feat:smpte", "decoder_crosschecks", "events_compared", "messages_classified", "pipe_reads"},
 		Run:     runC02,
 	})
 }
@@ -90,6 +93,24 @@ func c02Check(c *mon.Ctx, f *ref.EncFile, label string) {
 	if diff := ref.EqualFiles(truth, got); diff != "" {
 		c.Violation("content", fmt.Sprintf("ReadFrom differs from the specification decoder (%s): %s", label, diff), in, describeFile(truth, 30), describeFile(got, 30))
 		return
+	}
+	// files above 4 KiB are also read through a real pipe (an *os.File that cannot seek)
+	if len(b) > 4200 {
+		pr, pw, e := os.Pipe()
+		if e == nil {
+			go func() { pw.Write(b); pw.Close() }()
+			var sp *smf.SMF
+			var perr error
+			if !c.Guard("panic:ReadFrom(pipe)", in, func() { sp, perr = smf.ReadFrom(pr) }) {
+				c.Count("pipe_reads", 1)
+				if perr != nil {
+					c.Violation("read-error-pipe", fmt.Sprintf("ReadFrom rejects a spec-valid file (%s) when it comes through a pipe: %v", label, perr), in, "value", perr.Error())
+				} else if diff := ref.EqualFiles(truth, fromLib(sp)); diff != "" {
+					c.Violation("content-pipe", "ReadFrom through a pipe differs from the specification decoder: "+diff, in, nil, nil)
+				}
+			}
+			pr.Close()
+		}
 	}
 	c.Count("events_compared", int64(nev+len(truth.Tracks)))
 	// every message the reader produced is also classified (C08 hook)
